@@ -4,5 +4,6 @@ CONSTANTS
   Keys <- MCKeys3
   MaxCalls = 7
   MaxPubs = 100
+  InFlight = FALSE
 INVARIANT EmitFull
 CHECK_DEADLOCK FALSE
